@@ -200,6 +200,8 @@ func c14Functions() []string {
 	for n := range query.Functions {
 		names = append(names, n)
 	}
+	// functions the evaluator dispatches by name, outside the table
+	names = append(names, "JSON_OBJECT", "NOW") // CALL runs external commands: left out
 	sort.Strings(names)
 	return names
 }
@@ -435,7 +437,8 @@ func (r *c14Runner) familyFnDML(thorough bool) {
 			env.Exec("DECLARE w VIEW (id, c, d);")
 			ins := mustParse("INSERT INTO w VALUES (@i, @x, 'keep')")
 			for i, v := range al {
-				env.SetVar("i", value.NewInteger(int64(i)))
+				// the first cell counts down: it never equals the row's position (the internal identity of the working rows)
+				env.SetVar("i", value.NewInteger(int64(len(al)-1-i)))
 				env.SetVar("x", v.Primary())
 				env.Proc.Execute(env.Ctx, ins)
 			}
